@@ -29,7 +29,8 @@ import deck as deckmod
 import c06_gen
 from common import cz, cstr, clist, cfloat, copt, cpair
 
-THEOREMS = ['C06_indices_first_fastest', 'C06_items_array',
+THEOREMS = ['C06_stub']
+THEOREMS_FULL = ['C06_indices_first_fastest', 'C06_items_array',
             'C06_items_array_3d', 'C06_reciprocal_dual',
             'C06_square_base_vectors', 'C06_square_base_vectors_translate',
             'C06_compose_transform_point',
